@@ -3252,8 +3252,12 @@ class StateRetainer:
         ``backUp()`` or ``restoreBackup()``.
         """
         paramDefs = set()
+        roots = (self.composite,)
+        if getattr(self.composite, "material", None) is not None:
+            # the state of a component includes that of its own material
+            roots = (self.composite, self.composite.material)
         items = itertools.chain(
-            (self.composite,),
+            roots,
             self.composite.iterChildrenWithMaterials(deep=True),
         )
         for child in items:
